@@ -434,6 +434,8 @@ pub struct ExecOpts {
     pub step_budget: u64,
     pub check_heap: bool,
     pub record_snaps: usize,
+    /// engine X: the external print call is forwarded to the real runtime (newline, value)
+    pub print_hook: Option<fn(bool, i64)>,
 }
 
 pub fn probe_key(c: &str) -> String {
